@@ -247,6 +247,7 @@ type Exec struct {
 	mencBuf [2]*bytes.Buffer
 	mencOK  [2]bool
 	lastEnc *ev
+	lastEmpty bool // the block just completed means an empty field list
 	// failures of the open findings are reported by the closing op `drained`, so that within a case
 	// they cannot hide a different failure that comes later
 	deferred *failure
@@ -550,7 +551,10 @@ func (x *Exec) Do(op string) core.Result {
 		}
 		x.enc[e].SetMaxDynamicTableSizeLimit(v)
 		return core.Result{Impl: "ok", SkipModel: true}
-	case "hb": // hb e sid es prio instrs : one HEADERS frame whose block is the given representations
+	case "hb", "hbc": // hb e sid es prio instrs : one HEADERS frame whose block is the given representations
+		// (hbc: the same block as HEADERS without END_HEADERS + an empty CONTINUATION, in one op). A block
+		// may consist of size updates only: it decodes to an EMPTY field list and still has to be
+		// forwarded (one HEADERS frame with an empty fragment), END_STREAM included.
 		if len(t) != 6 {
 			return core.Result{Impl: "bad-op"}
 		}
@@ -562,14 +566,20 @@ func (x *Exec) Do(op string) core.Result {
 		}
 		trial := x.sTab[e].Clone()
 		fs, legal := trial.Apply(is, uint64(x.sLimit[e]))
-		if !legal || len(fs) == 0 {
+		if !legal || len(is) == 0 {
 			// not a block a conforming encoder emits here (a shrunk case): not an input, and the model,
 			// which does not follow the sender's encoder, is not asked
 			return core.Result{Impl: "bad-op", SkipModel: true}
 		}
 		x.sTab[e] = trial
 		es := t[3] == "1"
-		werr = w.WriteHeaders(http2.HeadersFrameParam{StreamID: sid, BlockFragment: Serialize(is), EndStream: es, EndHeaders: true, Priority: prio})
+		werr = w.WriteHeaders(http2.HeadersFrameParam{StreamID: sid, BlockFragment: Serialize(is), EndStream: es, EndHeaders: t[0] == "hb", Priority: prio})
+		if t[0] == "hbc" && werr == nil {
+			werr = w.WriteContinuation(sid, true, nil)
+		}
+		if len(fs) == 0 {
+			core.Count("gen:empty-field-list-blocks")
+		}
 		x.pend[e] = pendingBlock{active: true, sid: sid, es: es, prio: prioTok(prio, present), fields: LitEncode(fs), known: true}
 		for _, in := range is {
 			if in.Op == 'u' {
@@ -742,6 +752,9 @@ func (x *Exec) Do(op string) core.Result {
 	core.Count("op:" + t[0])
 
 	err := x.pair.Step(h2.Direction(d))
+	for err == nil && x.fromEP[e].Len() > 0 { // an op that wrote two frames (hbc)
+		err = x.pair.Step(h2.Direction(d))
+	}
 	status := "ok"
 	if err != nil {
 		status = "err"
@@ -774,8 +787,12 @@ func (x *Exec) Do(op string) core.Result {
 	if needEnc && err == nil {
 		// F08b class: a header block was just encoded on relay d for stream x.lastBlockSid while
 		// a block encoded earlier is still queued on another stream.
-		hadUpd := x.updPending[d]
-		x.updPending[d] = false
+		// (the encoder writes pending size updates in front of the first FIELD: none for an empty list)
+		emptyList := x.lastEmpty
+		hadUpd := x.updPending[d] && !emptyList
+		if !emptyList {
+			x.updPending[d] = false
+		}
 		for _, st := range x.pair.Snapshot(h2.Direction(d)).Streams {
 			if st.ID == x.lastBlockSid {
 				// ... second form: the block just encoded carries a size update and stays queued
@@ -812,6 +829,9 @@ func (x *Exec) Do(op string) core.Result {
 			x.strict[r].SetMaxReadFrameSize(uint32(x.rMax[dir]))
 			for x.strictBuf[r].Len() > 0 {
 				if _, serr := x.strict[r].ReadFrame(); serr != nil {
+					if _, isStream := serr.(http2.StreamError); isStream {
+						continue // (x/net refuses e.g. an empty HEADERS fragment; the frame is consumed)
+					}
 					x.strictOff[r] = true
 					x.strictBuf[r].Reset()
 					if serr == http2.ErrFrameTooLarge {
@@ -847,6 +867,27 @@ func (x *Exec) Do(op string) core.Result {
 				sid := binary.BigEndian.Uint32(raw[5:9]) & (1<<31 - 1)
 				openPP := ty == http2.FramePushPromise && fl&http2.FlagPushPromiseEndHeaders == 0 && fl&http2.FlagPushPromisePadded == 0 && ln >= 4 && blk == nil
 				contPP := ty == http2.FrameContinuation && blk != nil && blk.push && blk.sid == sid
+				// A HEADERS frame with an EMPTY fragment (what the relay has to send for a header block without
+				// fields) is refused by this x/net Framer on read: parsed by hand as well.
+				hp := 0
+				if fl&http2.FlagHeadersPriority != 0 {
+					hp = 5
+				}
+				if ty == http2.FrameHeaders && fl&http2.FlagHeadersPadded == 0 && fl&http2.FlagHeadersEndHeaders != 0 && ln == hp && blk == nil && len(raw) >= 9+ln {
+					pl := append([]byte{}, x.toEP[r].Next(9 + ln)[9:]...)
+					core.Count("rx:empty-headers-frames")
+					if !seen[sid] && r == e {
+						seen[sid] = true
+						firstSeen = append(firstSeen, sid)
+					}
+					b := &pendingBlockRx{sid: sid, es: fl&http2.FlagHeadersEndStream != 0, prio: "-", lens: []int{0}}
+					if hp == 5 {
+						dep := binary.BigEndian.Uint32(pl[:4])
+						b.prio = prioTok(http2.PriorityParam{StreamDep: dep & (1<<31 - 1), Exclusive: dep>>31 == 1, Weight: pl[4]}, true)
+					}
+					rendered[r] = append(rendered[r], x.recvBlock(dir, r, b, fail))
+					continue
+				}
 				if (openPP || contPP) && len(raw) >= 9+ln {
 					pl := append([]byte{}, x.toEP[r].Next(9 + ln)[9:]...)
 					checkSize(ty, sid, int64(ln))
@@ -1046,6 +1087,37 @@ func (x *Exec) Do(op string) core.Result {
 			ps = strings.Join(parts, ",")
 		}
 		snaps[dir] = fmt.Sprintf("%d/%d/%d;%s", s.ConnectionWindow, s.InitialWindowSize, s.MaxFrameSize, ps)
+		// The same question asked of the endpoints' ledgers alone (a frame the relay has dropped, or
+		// whose output buffer it has discarded, is in no queue): DATA the sender has handed over, not yet
+		// received, all of which fits the credit the receiver has granted - with nothing in flight it
+		// would have been delivered.
+		if status == "ok" {
+			queuedOn := map[uint32]bool{}
+			for _, st := range s.Streams {
+				if len(st.Queue) > 0 {
+					queuedOn[st.ID] = true
+				}
+			}
+			var sids []int
+			for sid := range x.exp[dir] {
+				sids = append(sids, int(sid))
+			}
+			sort.Ints(sids)
+			for _, si := range sids {
+				sid := uint32(si)
+				h := x.head(dir, sid)
+				if h == nil || h.kind != 'D' || queuedOn[sid] {
+					continue
+				}
+				rest := int64(len(h.data) - h.off)
+				sw := x.rInit[dir] + x.rWU[dir][sid] - x.rRecv[dir][sid]
+				if sw >= 0 && x.rConn[dir] >= 0 && rest <= sw && rest <= x.rConn[dir] {
+					core.Count("oracle:accepted-data-vanished")
+					fail("c09:stranded", "direction %d stream %d: %d bytes of DATA (END_STREAM=%v) the relay accepted are neither delivered nor in an output queue, although the receiver has granted the credit (stream window %d, connection window %d)", dir, sid, rest, h.es, sw, x.rConn[dir])
+					fail("c08:held-back", "direction %d stream %d: %d bytes of DATA (END_STREAM=%v) the relay accepted are neither delivered nor in an output queue, although the receiver has granted the credit (stream window %d, connection window %d)", dir, sid, rest, h.es, sw, x.rConn[dir])
+				}
+			}
+		}
 	}
 	join := func(l []string) string {
 		if len(l) == 0 {
@@ -1319,6 +1391,7 @@ func (x *Exec) completeBlock(e int) {
 	}
 	n := &ev{kind: k, es: p.es, prio: p.prio, fields: append([]byte{}, fields...), promised: p.promised}
 	x.lastEnc = nil
+	x.lastEmpty = x.validIn && len(fields) == 0
 	if fs, ok := LitDecode(fields); ok && x.validIn && x.mencOK[e] {
 		x.mencBuf[e].Reset()
 		for _, f := range fs {
